@@ -201,7 +201,10 @@ def mem_job(job):
         cont.clean_storage()
         out['repack_no'] = _measure(lambda: cont.repack(compress_mode=CompressMode.NO))
         out['read_packed_chunked'] = _measure(lambda: chunked(key))
+        # the copy branch of repack (source and destination compression are the same)
+        out['repack_keep_plain'] = _measure(lambda: cont.repack(compress_mode=CompressMode.KEEP))
         out['repack_yes'] = _measure(lambda: cont.repack(compress_mode=CompressMode.YES))
+        out['repack_keep_z'] = _measure(lambda: cont.repack(compress_mode=CompressMode.KEEP))
         cont.clean_storage()
         dest = Container(os.path.join(work, 'd'))
         dest.init_container(hash_type='sha1')
